@@ -13,7 +13,6 @@ DEFINITE = (
     'loop invariant not', 'decreases not satisfied', 'index out of bounds',
     'possible bit shift underflow/overflow', 'unable to prove', 'assertion not satisfied',
     'recommendation not met',  # only when reported as error
-    'could not prove termination', 'termination',
 )
 RESOURCE = ('rlimit', 'resource limit', 'timed out', 'Resource limit')
 
